@@ -307,8 +307,10 @@ func (r *runner) run(ctx context.Context, isStream bool, input any, opts ...Opti
 				ctx,
 				interruptRerunNodes,
 				subGraphInterrupts,
+				nil,
 				interruptAfterNodes,
 				append(completedTasks, cpt...),
+				nil,
 				checkPointID,
 				isSubGraph,
 				cm,
@@ -343,12 +345,17 @@ func (r *runner) run(ctx context.Context, isStream bool, input any, opts ...Opti
 			}
 
 			if len(subGraphInterrupts)+len(interruptRerunNodes) > 0 {
+				// completedTasks have already been resolved into the channels and into nextTasks
+				// by calculateNextTasks above: only the newly completed tasks remain to be resolved,
+				// and the pending nextTasks must be kept in the checkpoint.
 				return nil, r.handleInterruptWithSubGraphAndRerunNodes(
 					ctx,
 					interruptRerunNodes,
 					subGraphInterrupts,
+					interruptBeforeNodes,
 					interruptAfterNodes,
-					append(completedTasks, newCompletedTasks...),
+					newCompletedTasks,
+					nextTasks,
 					checkPointID,
 					isSubGraph,
 					cm,
@@ -456,8 +463,10 @@ func (r *runner) handleInterruptWithSubGraphAndRerunNodes(
 	ctx context.Context,
 	interruptRerunNodes []string,
 	subGraphInterrupts map[string]*subGraphInterruptError,
+	interruptBeforeNodes []string,
 	interruptAfterNodes []string,
 	completeTasks []*task,
+	pendingTasks []*task,
 	checkPointID *string,
 	isSubGraph bool,
 	cm *channelManager,
@@ -507,10 +516,14 @@ func (r *runner) handleInterruptWithSubGraphAndRerunNodes(
 		cp.State = state.state
 	}
 	intInfo := &InterruptInfo{
-		State:      cp.State,
-		AfterNodes: interruptAfterNodes,
-		RerunNodes: interruptRerunNodes,
-		SubGraphs:  make(map[string]*InterruptInfo),
+		State:       cp.State,
+		BeforeNodes: interruptBeforeNodes,
+		AfterNodes:  interruptAfterNodes,
+		RerunNodes:  interruptRerunNodes,
+		SubGraphs:   make(map[string]*InterruptInfo),
+	}
+	for _, t := range pendingTasks {
+		cp.Inputs[t.nodeKey] = t.input
 	}
 	for _, t := range subgraphTasks {
 		if isStream {
